@@ -430,6 +430,17 @@ func (g structReprTupleReprBuilderGenerator) emitListAssemblerChildListAssembler
 			case laState_finished:
 				panic("invalid state: Finish cannot be called on an assembler that's already finished")
 			}
+			var missing []string
+			{{- range $i, $field := .Type.Fields }}
+			{{- if not $field.IsOptional }}
+			if la.f <= {{ $i }} {
+				missing = append(missing, "{{ $field.Name }}")
+			}
+			{{- end}}
+			{{- end}}
+			if len(missing) > 0 {
+				return schema.ErrMissingRequiredField{Missing: missing}
+			}
 			la.state = laState_finished
 			*la.m = schema.Maybe_Value
 			return nil
